@@ -99,6 +99,23 @@ PROPS = {
             "`on a live engine they return the same rows` is outside this family (no engine semantics in any contract) and is not claimed",
         ],
     },
+    "C06": {
+        "kind": "verus",
+        "units": [{"name": "cond"}],
+        "search": True,
+        "technique": "Verus contracts with Kleene three-valued semantics as spec functions: every rewrite in Condition::add / ConditionHolder::add_condition / to_simple_expr preserves the meaning for all trees and all valuations; empty holder renders nothing",
+        "trusted_base": TB_COMMON + [TB_FMT,
+            "R-opaque: payload types of SimpleExpr that the extracted code only moves (ColumnRef, FunctionCall, SubQueryStatement, ...) are opaque",
+            "R-into: `x.into()` into the same type is the identity; the generic `C: Into<ConditionExpression>` / `C: IntoCondition` parameters are instantiated through the extracted From / IntoCondition impls",
+            "R-mem: std::mem::take returns the old value and leaves Default (= ConditionHolderContents::Empty, #[default])",
+            "R-attr: #[derive(Clone)] on SimpleExpr is a structural copy; #[derive(PartialEq)] on ConditionType is structural equality",
+            "impl From<bool> for Value yields Value::Bool(Some(b)) (macro-generated; checked by Kani harness full_rt_bool)"],
+        "assumptions": [
+            "the engines evaluate AND / OR / NOT by Kleene's tables; that the rendered TEXT re-parses to this expression tree is C05",
+            "the legacy Chain representation (hidden and_or_where) is outside the property's call list: it gets a contract but no semantic claim",
+            "JOIN ON and CASE WHEN conditions reach the same functions (into_condition, prepare_condition_where): CaseStatement::case / join_join themselves are not extracted",
+        ],
+    },
     "C17": {
         "kind": "verus",
         "units": [{"name": "escape"}],
@@ -128,6 +145,7 @@ PROPS = {
 }
 
 LEVEL_TEXT = {
+    "C06": "Unbounded proof over all condition trees, all call histories and all three-valued valuations: sem(result) == sem(what was added) for Condition::{add, add_option, not, any, all}, IntoCondition, ConditionHolder::add_condition (holder' == holder AND addition, empty == TRUE), cond_where / and_where / and_where_option / cond_having / and_having of the statements, to_simple_expr (tree == condition, termination proved), prepare_condition (Empty renders nothing).",
     "C01": "Unbounded proof over all operation sequences: the writer invariant (counter == values.len(), text == rendering of the trace) is preserved by every operation of the extracted SqlWriterValues; lemma_c01_closed_form: placeholder segments carry numbers 1..n once each, ascending, paired with values[k-1]; `?` vs `$k` per backend from the extracted placeholder(); prepare_value x4 push exactly one value; LIMIT/OFFSET renderers push their values in order.",
     "C02": "Unbounded proof: both writers satisfy one trait contract, so for any renderer the inline text is render_inline(T) and the parameterised result is (render_ph(T), params(T)) for the same trace T; lemma_c02_same_statement relates the two; all eight public entry points and the ten #[inherent] forwards are extracted and proved to call the same renderer with the same arguments.",
     "C12": "Complete proof (CBMC, no unwinding bound needed or unwinding assertions on) for every value of the scalar types, their Options, every variant/type mismatch and the listed tuple arities; heap-payload checks are bounded stand-ins, labelled and not counted.",
@@ -141,7 +159,7 @@ LEVEL_TEXT = {
 
 _NOT_YET = "not built yet in this session (planned, see DESIGN.md section 4); no check is registered so nothing is claimed"
 NOT_APPLICABLE = {
-    "C05": _NOT_YET, "C06": _NOT_YET,
+    "C05": _NOT_YET, 
     "C07": "defined by executing statements on a real SQLite engine and comparing rows/table contents; no contract on sea-query's functions can express an engine's evaluation semantics and neither Verus nor Kani can take SQLite's C code as a callee (DESIGN.md section 6)",
     "C08": _NOT_YET,
     "C09": "equality of query RESULTS of three renderings on executing engines and equivalence of emulations (IS NULL ordering, IFNULL/COALESCE, GREATEST/MAX): engine semantics, outside any contract on this code (DESIGN.md section 6)",
